@@ -180,6 +180,10 @@ impl EventLoops {
     /// Waiting for a read event to occur.
     /// This method can only be used in coroutines.
     pub fn wait_read_event(fd: c_int, timeout: Option<Duration>) -> std::io::Result<()> {
+        #[cfg(feature = "verif")]
+        if let Some(r) = crate::verif::scripted_wait(fd, false, timeout) {
+            return r;
+        }
         let event_loop = Self::event_loop();
         event_loop.add_read_event(fd)?;
         event_loop.wait_just(timeout)
@@ -188,6 +192,10 @@ impl EventLoops {
     /// Waiting for a write event to occur.
     /// This method can only be used in coroutines.
     pub fn wait_write_event(fd: c_int, timeout: Option<Duration>) -> std::io::Result<()> {
+        #[cfg(feature = "verif")]
+        if let Some(r) = crate::verif::scripted_wait(fd, true, timeout) {
+            return r;
+        }
         let event_loop = Self::event_loop();
         event_loop.add_write_event(fd)?;
         event_loop.wait_just(timeout)
@@ -320,3 +328,102 @@ impl_iocp!(recv(fd: SOCKET, buf: PSTR, len: c_int, flags: SEND_RECV_FLAGS) -> c_
 impl_iocp!(WSARecv(fd: SOCKET, buf: *const WSABUF, dwbuffercount: c_uint, lpnumberofbytesrecvd: *mut c_uint, lpflags : *mut c_uint, lpoverlapped: *mut OVERLAPPED, lpcompletionroutine : LPWSAOVERLAPPED_COMPLETION_ROUTINE) -> c_int);
 impl_iocp!(send(fd: SOCKET, buf: PCSTR, len: c_int, flags: SEND_RECV_FLAGS) -> c_int);
 impl_iocp!(WSASend(fd: SOCKET, buf: *const WSABUF, dwbuffercount: c_uint, lpnumberofbytesrecvd: *mut c_uint, dwflags : c_uint, lpoverlapped: *mut OVERLAPPED, lpcompletionroutine : LPWSAOVERLAPPED_COMPLETION_ROUTINE) -> c_int);
+
+/// Verification-only synchronous facade over the crate-private `EventLoop`.
+#[cfg(feature = "verif")]
+#[allow(missing_docs, clippy::all, clippy::pedantic)]
+pub mod verif_facade {
+    use super::EventLoop;
+    use crate::co_pool::CoroutinePool;
+    use crate::net::selector::Selector;
+    use std::ffi::c_int;
+    use std::sync::atomic::AtomicUsize;
+    use std::sync::{Arc, Condvar, Mutex};
+    use std::time::Duration;
+
+    /// An event loop driven by the calling thread (no loop thread is started).
+    #[derive(Debug)]
+    pub struct SyncLoop {
+        inner: Box<EventLoop<'static>>,
+    }
+
+    impl SyncLoop {
+        pub fn new(
+            name: &str,
+            stack_size: usize,
+            min_size: usize,
+            max_size: usize,
+            keep_alive_time: u64,
+        ) -> std::io::Result<Self> {
+            Ok(Self {
+                inner: Box::new(EventLoop::new(
+                    name.to_string(),
+                    0,
+                    stack_size,
+                    min_size,
+                    max_size,
+                    keep_alive_time,
+                    Arc::new((Mutex::new(AtomicUsize::new(0)), Condvar::new())),
+                )?),
+            })
+        }
+
+        /// Make this loop the calling thread's current loop (what the loop thread does).
+        pub fn enter(&self) {
+            EventLoop::init_current(&self.inner);
+        }
+
+        pub fn leave(&self) {
+            EventLoop::clean_current();
+        }
+
+        pub fn pool(&self) -> &CoroutinePool<'static> {
+            &self.inner
+        }
+
+        pub fn pool_mut(&mut self) -> &mut CoroutinePool<'static> {
+            &mut self.inner
+        }
+
+        pub fn wait_event(&mut self, timeout: Option<Duration>) -> std::io::Result<()> {
+            self.inner.wait_event(timeout)
+        }
+
+        pub fn stop_sync(&mut self, wait_time: Duration) -> std::io::Result<()> {
+            self.inner.stop_sync(wait_time)
+        }
+
+        pub fn add_read_event(&self, fd: c_int) -> std::io::Result<()> {
+            self.inner.add_read_event(fd)
+        }
+
+        pub fn add_write_event(&self, fd: c_int) -> std::io::Result<()> {
+            self.inner.add_write_event(fd)
+        }
+
+        pub fn del_event(&self, fd: c_int) -> std::io::Result<()> {
+            self.inner.del_event(fd)
+        }
+
+        pub fn del_read_event(&self, fd: c_int) -> std::io::Result<()> {
+            self.inner.del_read_event(fd)
+        }
+
+        pub fn del_write_event(&self, fd: c_int) -> std::io::Result<()> {
+            self.inner.del_write_event(fd)
+        }
+
+        /// The OS selector descriptor (epoll fd) of this loop.
+        pub fn selector_fd(&self) -> c_int {
+            self.inner.selector_fd()
+        }
+
+        /// Leak the loop (skip the stopping `Drop`), for harness children that `_exit`.
+        pub fn forget(self) {
+            std::mem::forget(self);
+        }
+    }
+
+    #[allow(unused)]
+    fn _assert_selector<T: Selector<mio::Interest, mio::event::Event, mio::Events>>() {}
+}
